@@ -291,6 +291,13 @@ const ClockSkewGracePeriod = time.Minute * 2
 func genCertTemplateFromCSR(csr *x509.CertificateRequest, subjectIDs []string, ttl time.Duration, isCA bool, signingCert *x509.Certificate) (
 	*x509.Certificate, error,
 ) {
+	for _, id := range subjectIDs {
+		// The IDs are passed on as one comma-delimited string, which BuildSubjectAltNameExtension splits
+		// again: an ID containing the delimiter would end up as several SAN entries.
+		if strings.Contains(id, ",") {
+			return nil, fmt.Errorf("invalid subject ID %q: must not contain ','", id)
+		}
+	}
 	subjectIDsInString := strings.Join(subjectIDs, ",")
 	var keyUsage x509.KeyUsage
 	extKeyUsages := []x509.ExtKeyUsage{}
